@@ -532,6 +532,10 @@ func (runInfo *runInfoStruct) invokeSliceExpr(expr *ast.SliceExpr) {
 		return
 	}
 	item := runInfo.rv
+	if item.Kind() != reflect.Array {
+		// the operand is the one read before the bounds are evaluated (an array stays the place it is)
+		item = detachValue(item)
+	}
 
 	if item.Kind() == reflect.Interface && !item.IsNil() {
 		item = item.Elem()
